@@ -26,7 +26,11 @@ type story struct {
 	name   string
 	start  uint64
 	steps  []step
-	shared bool // several v1 contracts share a window end (the known expiration-order finding lives here)
+	// shared: a recorded C02 finding lives here (several v1 contracts sharing a window end: expiration order;
+	// one block revising and resolving the same v1 contract: proofs after its revert). C02 explores these
+	// storylines and reports the findings; C03, C04 and C06 leave them out so that nothing there can be
+	// excused by them.
+	shared bool
 }
 
 func dst(c *stepCtx, normal, alt int) types.Address {
@@ -294,6 +298,9 @@ func stories(reg univ.Regime) []story {
 		{name: "fc-leaf-proof", start: 1, steps: []step{v1Form(1, 2, 4, true), v1Proof(0, -1), empty()}},
 		{name: "fc-newwindow-expire", start: 1, steps: []step{v1Form(1, 2, 3, false), v1Revise(0, 3, 4), empty(), empty()}},
 		{name: "fc-expire", start: 1, steps: []step{v1Form(1, 2, 3, false), empty(), empty()}},
+		// a revision (same window / window end moved) and the storage proof of the same contract in one block
+		{name: "fc-revise+proof-one-block", start: 1, shared: true, steps: []step{v1Form(1, 3, 4, false), empty(), both(v1Revise(0, 3, 4), v1Proof(0, -1)), empty()}},
+		{name: "fc-revise-window+proof-one-block", start: 1, shared: true, steps: []step{v1Form(1, 3, 4, false), empty(), both(v1Revise(0, 3, 5), v1Proof(0, -1)), empty()}},
 		{name: "fc-shared2", start: 1, shared: true, steps: []step{v1Form(2, 2, 4, false), v1Proof(1, 0), empty(), empty()}},
 		{name: "fc-shared3", start: 1, shared: true, steps: []step{v1Form(3, 2, 4, false), v1Proof(1, 2), v1Proof(0, 1), empty()}},
 		{name: "fc-shared2-window", start: 1, shared: true, steps: []step{both(v1Form(1, 3, 4, false), empty()), v1Form(1, 3, 4, true), v1Revise(0, 4, 5), empty(), empty()}},
